@@ -811,6 +811,16 @@ class Interp:
             if fields_ and not any(isinstance(st_, (ast.FunctionDef, ast.AsyncFunctionDef)) for st_ in obj.node.body):
                 nt_ = _c.namedtuple(obj.name, fields_, defaults=dfl_ or None)
                 return PyFunc(lambda a, k, nt_=nt_: nt_(*a, **k), obj.name)
+        if kind == "class" and not any((A.dotted(b) or "").split(".")[-1] in ("Exception", "BaseException", "ValueError", "TypeError", "KeyError", "RuntimeError") for b in obj.node.bases):
+            # a private class of the package the scenario did not list (a small record / registry / layout class introduced by a
+            # refactoring): instantiated by the object model like the classes the scenario names
+            from .objmodel import World
+            wld = self.externals.get("__world__")
+            if wld is None:
+                return _NOHOME  # only an object-model scenario knows how to run methods of instances; elsewhere: cannot decide
+            if obj.name not in wld.classes:
+                wld.add_class(obj)
+            return PyFunc(lambda a, k, wld=wld, obj=obj: wld.new(obj, a, k), obj.name)
         if kind == "assign":
             store = self.externals.setdefault("__modconst__", {})
             key = id(obj)
@@ -1666,6 +1676,11 @@ class Interp:
             return self.env[f.id].f(xa, xk)
         if isinstance(f, ast.Name) and isinstance(self.env.get(f.id), Obj) and isinstance(self.env[f.id].attrs.get("__call__"), PyFunc):
             return self.env[f.id].attrs["__call__"].f(self.eval_args(e.args), self.eval_kwargs(e.keywords))
+        if isinstance(f, ast.Name) and isinstance(self.env.get(f.id), Obj) and "__call__" in self.externals:
+            try:
+                return self.externals["__call__"](self.env[f.id], self.eval_args(e.args), self.eval_kwargs(e.keywords))  # an instance of a class that defines __call__
+            except NotHandled:
+                pass
         if isinstance(f, ast.Attribute) and not (isinstance(f.value, ast.Name) and f.value.id in MODULE_NAMES):
             try:
                 recv = self.eval(f.value)
@@ -1830,6 +1845,20 @@ class Interp:
         if name == "compress" and "compress" not in self.env and len(args) == 2 and A.dotted(f) in ("itertools.compress", "compress"):
             d_, s_ = self.iterable(ev(args[0]), "compress"), self.iterable(ev(args[1]), "compress")
             return [x_ for x_, y_ in zip(d_, s_) if self.truth(y_)]
+        if name == "fromkeys" and isinstance(f, ast.Attribute) and isinstance(f.value, ast.Name) and f.value.id == "dict" and "dict" not in self.env and 1 <= len(args) <= 2:
+            val_ = ev(args[1]) if len(args) > 1 else None
+            return {k_: val_ for k_ in self.iterable(ev(args[0]), "dict.fromkeys")}
+        if name == "linspace" and (A.dotted(f) or "").split(".")[0] in ("np", "numpy") and 2 <= len(args) <= 3 and not (set(kw) - {"num"}):
+            lo_, hi_ = to_poly(ev(args[0])), to_poly(ev(args[1]))
+            num_ = to_poly(ev(args[2] if len(args) > 2 else kw["num"])) if (len(args) > 2 or "num" in kw) else Poly.const(50)
+            if not (num_.is_const() and num_.const_value().denominator == 1 and 0 <= num_.const_value() <= 4096):
+                raise Undecided("linspace with a symbolic number of points")
+            n_ = int(num_.const_value())
+            pts_ = [lo_ + (hi_ - lo_) * Poly.const(Fraction(i_, n_ - 1)) for i_ in range(n_)] if n_ > 1 else [lo_][:n_]
+            if self.externals.get("__elementwise__"):
+                from .listnp import wrap as _wrap2
+                return _wrap2(pts_)
+            return pts_
         if name == "namedtuple" and "namedtuple" not in self.env and len(args) >= 2:
             import collections as _c
             tn_, fl_ = ev(args[0]), ev(args[1])
